@@ -32,4 +32,41 @@ def runHistoryNoReset (tbl : Table) (alg : AtomAlg A) (steps : List (List String
   | st, [] => st
   | st, s :: h => runHistoryNoReset tbl alg steps (solveFrom tbl alg steps st s).1 h
 
+/-! ### everything the instance carries from call to call -/
+
+/-- The attributes of an `ExpressionSolver` a call writes: the token buffers and `self.expr`
+    (its `.expr` text; absent before the first call).  `operators`, `steps` and the atom class are
+    never written by `solve` (checked on the real objects after every generated history), so they
+    are parameters. -/
+structure Inst (A : Type) where
+  bufs : Bufs A
+  expr : Option (List Char)
+
+def Inst.fresh : Inst A := ⟨⟨[], []⟩, none⟩
+
+/-- `solve(s)` on the instance: `self.expr = Expression(s)`, then `solveI` on the buffers -/
+def Inst.solve (tbl : Table) (alg : AtomAlg A) (steps : List (List String × Otype))
+    (i : Inst A) (s : List Char) : Inst A × Except String (Tok A) :=
+  let r := solveI tbl alg steps i.bufs s
+  (⟨r.1, some s⟩, r.2)
+
+def Inst.run (tbl : Table) (alg : AtomAlg A) (steps : List (List String × Otype)) :
+    Inst A → List (List Char) → Inst A
+  | i, [] => i
+  | i, s :: h => Inst.run tbl alg steps (i.solve tbl alg steps s).1 h
+
+/-- The arguments of one call solved by independent fresh instances (the specification of
+    `solveArgs`, which reuses ONE nested instance for all arguments of a call). -/
+def freshArgs (tbl : Table) (alg : AtomAlg A) (steps : List (List String × Otype)) :
+    List (List Char) → Except String (List (Option A))
+  | [] => .ok []
+  | a :: as =>
+      match SciVerif.C01.solve tbl alg steps a with
+      | .error m => .error m
+      | .ok (.op _ _) => .error "unsupported:operator-valued-argument"
+      | .ok t =>
+        match freshArgs tbl alg steps as with
+        | .error m => .error m
+        | .ok vs => .ok (tokAtom t :: vs)
+
 end SciVerif.C02
